@@ -310,7 +310,11 @@ def run_case(case):
     contracts.install()
     outcome = {}
     hits = {}
-    for label, tol in (("reuse", cfg["reuse_tolerance"]), ("noreuse", -1)):
+    # "A negative value means that shape reuse is disabled" (flag help): -1 mostly, other negative values too
+    off = common.rng(ID, "off", case["seed"], case["i"]).choice([-1, -1, -1, -0.5, -2, -0.001, -10])
+    if off != -1:
+        res["tags"].append("noreuse-tolerance-other-than-minus-1")
+    for label, tol in (("reuse", cfg["reuse_tolerance"]), ("noreuse", off)):
         contracts.reset()
         try:
             if case.get("lane") == "cli":
@@ -368,7 +372,7 @@ def run_case(case):
         return res
     A, B = outcome["reuse"][1], outcome["noreuse"][1]
     if hits["noreuse"].get("H2.reuse_hits", 0):
-        res["violations"].append({"what": "reuse taken although disabled (tolerance -1)", "config": cfg})
+        res["violations"].append({"what": f"reuse taken although disabled (tolerance {off})", "config": cfg})
     la, lb = display_lists(A), display_lists(B)
     vbs = [__import__("vf.oracle.svgeval", fromlist=["x"]).view_box(n) for n in norm]
     for i in la:
